@@ -11,7 +11,7 @@ import (
 
 func init() {
 	register("C08",
-		"no function reachable from the exported API (or from a registered builtin) other than `init` writes package-level state, directly or by handing a package-level object to a callee that writes through that parameter (interprocedural parameter-write summaries); evaluation and field analysis never write through the tree they are given (node, token node, node list, source) - not even lazily; every parse allocates its own parser, scanner and source; the only ambient inputs (clock, random numbers, environment, runtime identity) are read by the builtins registered as `now` and `toDay`; loops over Go maps do not let the iteration order reach a result.",
+		"no function reachable from the exported API (or from a registered builtin) other than `init` writes package-level state, directly or by handing a package-level object to a callee that writes through that parameter (interprocedural parameter-write summaries); evaluation and field analysis never write through the tree they are given (node, token node, node list, source) - not even lazily; every parse allocates its own parser, scanner and source; the only ambient inputs (clock, random numbers, environment, runtime identity) are read by the builtins registered as `now` and `toDay`; loops over Go maps do not let the iteration order reach a result. No package-level map or slice is installed in a field that is written through elsewhere (shared state between objects); decimal results and reflective writes go into objects created in the same function.",
 		"equality of repeated results as values (only its causes - no hidden state, no ambient input, no order dependence - are decided) and determinism inside the standard library / decimal library.",
 		runC08)
 }
